@@ -73,8 +73,8 @@ TraceNext ==
          [] e.ev = "GC"       -> GC
          [] e.ev = "Take" /\ e.r \in tomb -> LateTake(e) /\ UNCHANGED tomb
          [] e.ev = "Reply" /\ e.t # "" /\ (\E r \in tomb : r = e.tr) -> LateReply(e, e.tr) /\ UNCHANGED tomb
-         [] e.ev = "Conn"     -> O!DoConn(e.b, e.h, e.init) /\ UNCHANGED tomb
-         [] e.ev = "Submit"   -> O!DoSubmit(e.r, e.c, e.s, e.idem, e.op, e.cached, e.t) /\ UNCHANGED tomb
+         [] e.ev = "Conn"     -> O!DoConn(e.b, e.h, e.init, e.sess) /\ UNCHANGED tomb
+         [] e.ev = "Submit"   -> O!DoSubmit(e.r, e.c, e.s, e.idem, e.op, e.cached, e.t, e.sess) /\ UNCHANGED tomb
          [] e.ev = "Take"     -> O!DoTake(TakeTarget(e), e.h, e.b, e.bs, e.op) /\ UNCHANGED tomb
          [] e.ev = "Answer"   -> O!DoAnswer(AnswerTarget(e), e.b, e.bs, e.o) /\ UNCHANGED tomb
          [] e.ev = "Drop"     -> O!DoDrop(e.b) /\ UNCHANGED tomb
